@@ -4,7 +4,7 @@ snapshot_jobs(): the repository's own snapshot-suite inputs (rendering_inputs/su
 with the suite's context — executions the suite already runs but under-asserts."""
 import os, glob, json
 
-SNAP = "/repo/tera/src/snapshot_tests/rendering_inputs"
+SNAP = (os.environ.get("VERIF_REPO") or os.environ.get("VP_RUN_REPO") or "/repo") + "/tera/src/snapshot_tests/rendering_inputs"
 
 
 def snapshot_context():
